@@ -132,17 +132,26 @@ def strtypes_family(chk, tier):
     configs = DS.registries_from_tlc(chk, 2 if quick else 3)
     # (three operations are beyond the quick bound: the histories that need them are given explicitly - registration repeated, then a
     # removal by class / by name)
+    explicit = []
     for third in (["remove", "IsoTimeString"], ["remove", "IsoDateString"], ["disable", "time"], ["disable", "IsoDatetimeString"]):
         rest = [c for c in ("IsoDateString", "IsoTimeString", "IsoDatetimeString")
                 if not (third[1] == c or (third[0] == "disable" and third[1] in ("time",) and c == "IsoTimeString"))]
-        configs.append({"ops": [["datetime", ""], ["datetime", ""], third], "types": ["IntString", "FloatString", "BooleanString"] + rest})
+        explicit.append({"ops": [["datetime", ""], ["datetime", ""], third], "types": ["IntString", "FloatString", "BooleanString"] + rest})
     chk.exhaustive_parts.append("MC_StrTypes: every registry reachable by <=%d register/disable operations; MC_StrGrammar: every string of <=%d tokens"
                                 % (2 if quick else 3, 2 if quick else 3))
     if quick:
         configs = configs[::4]
     names = list(DS.CLS)
     if not quick:
-        configs = configs[::2]
+        # detection / resolution depend on the registry content only: of the three-operation histories keep one per reached content
+        seen, keep = set(), []
+        for c in configs:
+            key = (tuple(c["types"]), json.dumps(c.get("repl", []), sort_keys=True))
+            if len(c["ops"]) <= 2 or key not in seen:
+                keep.append(c)
+            seen.add(key)
+        configs = keep[::2]
+    configs = configs + explicit
     orders = [chk.rng.sample(names, chk.rng.randint(2, 6)) for _ in range(4 if quick else 12)]
     traces, inputs, extra, I = DS.strtypes_traces(chk, corpus, configs, orders, detect_stride=3 if quick else 4)
     chk.rules.append("%d corpus strings x %d registries (TLC-enumerated op sequences + %d permuted orders): detection, "
